@@ -11,7 +11,8 @@ import random
 import numpy as np
 
 import common
-from props.c13 import PREFIX, cdiv, rel, spec_path, walk_samples
+from props import c13 as _c13
+from props.c13 import cdiv, rel, spec_path, walk_samples
 
 RATES = [(10 ** 8, 7), (10 ** 9, 7), (10 ** 6, 3), (200, 3), (25 * 10 ** 6, 3), (1, 1), (100, 1),
          # present-day indices with k*d >= 2^64 (a 64-bit evaluation of k*d would wrap)
@@ -366,9 +367,10 @@ def run_channel(res, n, d, fc, sc, calls, nq, stats, label):
     nf = common.number_form
     forms = [nf(rng, sc), nf(rng, fc), nf(rng, n), nf(rng, d)]
     arg_types = [type(x).__name__ for x in forms]      # how (subdir cadence, file cadence, numerator, denominator) are passed
-    w = digital_rf.DigitalMetadataWriter(common.path_form(top), forms[0], forms[1], forms[2], forms[3], PREFIX)
+    _c13.set_prefix(rng.choice(_c13.PREFIXES))
+    w = digital_rf.DigitalMetadataWriter(common.path_form(top), forms[0], forms[1], forms[2], forms[3], _c13.PREFIX)
     spec, sstat = spec_of(calls)
-    cfgi = {"n": n, "d": d, "fc": fc, "sc": sc, "calls": calls, "arg_types": arg_types}
+    cfgi = {"n": n, "d": d, "fc": fc, "sc": sc, "calls": calls, "arg_types": arg_types, "prefix": _c13.PREFIX}
     expv, istat = {}, []
     refused_tags = set()
     first_keys = None
@@ -466,7 +468,7 @@ def run_channel(res, n, d, fc, sc, calls, nq, stats, label):
     parts = dict(zip(subs, common.run_model("metadata", [[3, s] for s in subs]))) if subs else {}
     for i in range(dump[1]):
         s, t, k, _tag = dump[2 + 4 * i: 6 + 4 * i]
-        mwhere.setdefault(k, []).append("%04d-%02d-%02dT%02d-%02d-%02d/%s@%d.h5" % (*parts[s], PREFIX, t))
+        mwhere.setdefault(k, []).append("%04d-%02d-%02dT%02d-%02d-%02d/%s@%d.h5" % (*parts[s], _c13.PREFIX, t))
     if mwhere != where:
         res.disagree("model vs implementation: directory contents (index -> file)", dict(cfgi, query=["tree"]),
                      sorted(mwhere.items())[:6], sorted(where.items())[:6])
@@ -621,7 +623,9 @@ def replay(res, rp):
     at = i.get("arg_types") or ["int"] * 4
     F = common.number_from_form
     print("subdir cadence, file cadence, numerator, denominator passed as", at)
-    w = digital_rf.DigitalMetadataWriter(top, F(at[0], sc), F(at[1], fc), F(at[2], n), F(at[3], d), PREFIX)
+    _c13.set_prefix(i.get("prefix") or "metadata")
+    print("file name prefix", repr(_c13.PREFIX))
+    w = digital_rf.DigitalMetadataWriter(top, F(at[0], sc), F(at[1], fc), F(at[2], n), F(at[3], d), _c13.PREFIX)
     spec, sstat = spec_of(calls)
     expv = {}
     rd_old = None
